@@ -160,6 +160,18 @@ func (r *FileReader) SkipNext() error {
 
 		// here we have to add the header to the offset too, otherwise we will seek not far enough
 		expectedOffset := int64(r.currentOffset + expectedBytesSkipped + (r.reader.Count() - start))
+
+		// seeking past the end of a file succeeds: a record whose payload was cut off must not count as skipped,
+		// reading it reports the short payload as well
+		stat, err := r.file.Stat()
+		if err != nil {
+			return fmt.Errorf("error while checking the size of '%s': %w", r.file.Name(), err)
+		}
+		if expectedOffset > stat.Size() {
+			return fmt.Errorf("record at offset %d in '%s' ends at %d, the file has %d bytes: %w",
+				r.currentOffset, r.file.Name(), expectedOffset, stat.Size(), io.ErrUnexpectedEOF)
+		}
+
 		newOffset, err := r.file.Seek(expectedOffset, 0)
 		if err != nil {
 			return fmt.Errorf("error while seeking to offset %d in '%s': %w", expectedOffset, r.file.Name(), err)
